@@ -13,7 +13,7 @@
       reported hang / `slice bounds out of range [:-1]` / out-of-memory on exactly the input classes the *_refuted
       theorems exhibit). The *_refuted theorems therefore document the repaired defect; they are not claims about the
       current tree and nothing else in this file depends on them. *)
-From ZV Require Import Lib.Base Model.Codec Model.CodecOld Proofs.CodecCost Proofs.CodecRT Proofs.CodecStable Proofs.CodecOld.
+From ZV Require Import Lib.Base Generated.CodecConsts Model.Codec Model.CodecOld Proofs.CodecCost Proofs.CodecRT Proofs.CodecStable Proofs.CodecOld Proofs.CodecEnc.
 From Coq Require Import Permutation.
 Open Scope N_scope.
 
@@ -59,6 +59,46 @@ Theorem C26_branchesrepos_roundtrip : forall (T : Type) (ser : T -> bytes) (bm :
   dec_br bm (enc_br (map (fun p => (fst p, ser (snd p))) l)) = Ok l.
 Proof. intros T ser bm l H. exact (dec_br_enc ser bm l H). Qed.
 Print Assumptions C26_branchesrepos_roundtrip.
+
+(** the ENCODERS never panic. enc_*_go (Model/Codec.v) are the checked encoders: every varint is written by
+    binary.PutUvarint into the scratch buffer `var enc [cap]byte` (each buf[i] a checked index expression, Panic when
+    i >= cap), with cap the constant that translator/c26consts reads from reposMapEncode / stringSetEncode /
+    branchesReposEncode of the tree under test on every run (Generated/CodecConsts.v). For every value in the domain of
+    the round-trip theorems (IndexTimeUnix ANY int64 — a negative one is written as uint64 >= 2^63 and needs all 10
+    bytes —, ids < 2^32, counts and lengths < 2^63) they return Ok, and exactly the bytes of the pure encoders enc_* that
+    the round-trip theorems speak about. The proof needs 10 <= cap for each generated capacity (checked by computation):
+    it does not go through for a tree whose buffer is `[binary.MaxVarintLen32]byte`.
+    Not modelled: the size pre-pass of the encoders (it pushes the same numbers through the same buffer, so it panics
+    iff the write pass does) and bytes.Buffer.Grow/Write. *)
+Theorem C26_encode_never_panics :
+  (forall l : list bytes, wf_set l -> enc_set_go l = Ok (enc_set l)) /\
+  (forall l : list (N * rentry), wf_repos l -> enc_repos_go (Some l) = Ok (enc_repos (Some l))) /\
+  enc_repos_go None = Ok (enc_repos None) /\
+  (forall l : list (bytes * bytes),
+     nlen l < 2 ^ 63 -> Forall (fun p => nlen (fst p) < 2 ^ 63 /\ nlen (snd p) < 2 ^ 63) l -> enc_br_go l = Ok (enc_br l)).
+Proof. exact enc_go_never_panics. Qed.
+Print Assumptions C26_encode_never_panics.
+
+(** encode-then-decode is total over ReposMap / FileNameSet values: the checked encoder produces bytes (no panic) and
+    the decoder reads the value back *)
+Theorem C26_roundtrip_checked_encoder :
+  (forall l, wf_set l -> exists b, enc_set_go l = Ok b /\ dec_set b = Ok l) /\
+  (forall l, wf_repos l -> exists b, enc_repos_go (Some l) = Ok b /\ dec_repos b = Ok (Some l)) /\
+  (exists b, enc_repos_go None = Ok b /\ dec_repos b = Ok None).
+Proof.
+  split; [intros l H; exists (enc_set l); split; [exact (proj1 enc_go_never_panics l H) | exact (dec_set_enc l H)]|].
+  split; [intros l H; exists (enc_repos (Some l)); split; [exact (proj1 (proj2 enc_go_never_panics) l H) | exact (dec_repos_enc l H)]|].
+  exists (enc_repos None). split; [reflexivity | exact dec_repos_enc_nil].
+Qed.
+Print Assumptions C26_roundtrip_checked_encoder.
+
+(** capacity 10 is necessary, not only sufficient: in ANY smaller scratch buffer PutUvarint panics on uint64(int(-1)),
+    and reposMapEncode panics on the one-entry map {7: {HasSymbols, IndexTimeUnix: -1}} *)
+Theorem C26_encode_capacity_needed : forall cap : nat, (cap < 10)%nat ->
+  put_uvarint_chk cap (of_int (-1)) = Panic 4 /\
+  is_panic (enc_repos_chk cap (Some [(7, (true, (-1)%Z, []))])) = true.
+Proof. intros cap H. split; [exact (put_chk_needs_10 cap H) | exact (enc_repos_chk_small cap H)]. Qed.
+Print Assumptions C26_encode_capacity_needed.
 
 (** decoding ANY byte string never panics: every slice expression and make in the decoders is in range
     (FromBuffer is external: assumed not to panic) *)
@@ -177,3 +217,24 @@ Example C26_ex_accepted :
   canon_map [(7, (true, 0%Z, [([97], [98])])); (7, (false, 0%Z, []))] = [(7, (false, 0%Z, []))] /\
   dec_repos (enc_repos (Some [(7, (false, 0%Z, []))])) = Ok (Some [(7, (false, 0%Z, []))]).
 Proof. vm_compute. repeat split; reflexivity. Qed.
+(** a negative IndexTimeUnix (time.Time{}.Unix() = -62135596800 of a repository that was never indexed) needs all 10
+    bytes of the scratch buffer: the checked encoder with the generated capacity writes it, the decoder reads it back;
+    with the 5-byte buffer of `[binary.MaxVarintLen32]byte` the same value — and 2^35, the first timestamp with 6
+    varint bytes — panics, while 2^35 - 1 still fits *)
+Example C26_ex_encode_negative_time :
+  let v := [(7, (true, (-62135596800)%Z, [([72;69;65;68], [99;51])]))] in
+  wf_repos v /\ length (put_uvarint (of_int (-62135596800))) = 10%nat /\
+  enc_repos_go (Some v) = Ok [2;1;1;7;1;128;146;184;195;152;254;255;255;255;1;1;4;72;69;65;68;2;99;51] /\
+  dec_repos [2;1;1;7;1;128;146;184;195;152;254;255;255;255;1;1;4;72;69;65;68;2;99;51] = Ok (Some v) /\
+  enc_repos_chk 5 (Some v) = Panic 4 /\
+  enc_repos_chk 5 (Some [(7, (true, 34359738368%Z, []))]) = Panic 4 /\
+  enc_repos_chk 5 (Some [(7, (true, 34359738367%Z, []))]) = Ok [2;1;0;7;1;255;255;255;255;127;0].
+Proof.
+  split; [|vm_compute; repeat split; reflexivity].
+  split; [vm_compute; reflexivity|]. split; [vm_compute; reflexivity|].
+  constructor; [|constructor].
+  split; [vm_compute; reflexivity|]. split; [split; vm_compute; [discriminate|reflexivity]|]. split; [vm_compute; reflexivity|].
+  constructor; [|constructor]. split; vm_compute; reflexivity.
+Qed.
+Example C26_ex_encode_set : enc_set_go [[104;105]; []] = Ok [1;2;2;104;105;0] /\ wf_set [[104;105]; []].
+Proof. split; [vm_compute; reflexivity|]. split; [vm_compute; reflexivity | repeat constructor]. Qed.
